@@ -26,8 +26,9 @@ ASSUMPTIONS = [
     "never give a geom both a material and an own alpha-0 rgba",
     "static geoms = geoms of bodies welded to the world; mocap bodies are not static (doc computation/Collision detection: 'Mocap bodies "
     "and their dof-less descendants form their own weld group, distinct from the world weld')",
-    "mj_multiRay with a finite cutoff: 'Geoms further than cutoff are ignored' - geoms whose bounding sphere lies entirely within the "
-    "cutoff must be seen, geoms that reach beyond it may or may not be",
+    "mj_multiRay with a finite cutoff: 'Geoms further than cutoff are ignored' - a geom whose bounding sphere lies entirely within the "
+    "cutoff, or whose intersection point with the ray is within the cutoff, is not 'further than cutoff' under any reading and must be "
+    "seen; other geoms may or may not be",
     "meshes need convex hulls (qhull absent), libccd absent: primitives only; heightfields are not covered",
 ]
 
@@ -169,6 +170,8 @@ def interval(G, pnt, vec):
     mag = math.sqrt(sum((pnt[k] - pos[k]) ** 2 for k in range(3))) + sum(abs(v) for v in pos) + sum(abs(v) for v in pnt)
     if lo * math.sqrt(sum(v * v for v in vec)) <= 20 * max(1e-9 * scale, 4e-12 * mag):
         lo = 0.0
+    if R.origin_surface_distance(t, pos, Rm, size, pnt) <= 20 * max(1e-9 * scale, 4e-12 * mag):
+        lo = 0.0            # the origin itself is on the surface (within the displacement): x = 0 is an intersection
     if t == R.PLANE and R.plane_side(pos, Rm, pnt, vec) <= 0:
         # towards the back face: report the (two-sided) intersection or nothing
         hi = math.inf
@@ -218,6 +221,14 @@ def judge(G, inc, pnt, vec, xe, ge):
         return ("reported-nearer-than-any-surface", dict(x=xe, geomid=ge, ref=xr, refgeom=gr)), "bad", xr, gr
     if xev > hi_all + t_hi:
         kind = "miss-while-filtered-geom-is-hit" if xe < 0 else "not-the-nearest-intersection"
+        g_hi = min(iv, key=lambda i: iv[i][1])           # the geom whose certain hit was not reported
+        if allx[g_hi] is not None and allx[g_hi] >= 0 and G[g_hi][0] != R.PLANE:
+            Ld = math.sqrt(sum((pnt[k] - G[g_hi][1][k]) ** 2 for k in range(3))) + sum(abs(v) for v in G[g_hi][1]) + sum(abs(v) for v in pnt)
+            cond = 2e-14 * Ld * Ld / min(v for v in G[g_hi][3] if v > 0)
+            if R.on_seam(G[g_hi][0], G[g_hi][1], G[g_hi][2], G[g_hi][3], pnt, vec, allx[g_hi], abs_tol=cond):
+                # the ray enters the shape through the curve where two surface patches meet (within rounding at this distance)
+                kind = "hit-on-patch-seam-lost"
+                gr = g_hi
         return (kind, dict(x=xe, geomid=ge, ref=xr, refgeom=gr, reftype=G[gr][0] if gr >= 0 else -1)), "bad", xr, gr
     if ge >= 0:
         if not inc[ge]:
@@ -518,7 +529,9 @@ def worker(c):
             v = vecs[k]
             allx = R.nearest(G, tuple(pnt.tolist()), tuple(v.tolist()), inc)[2]
             vn = np.linalg.norm(v)
-            near = [i for i in range(ng) if inc[i] and rbound[i] > 0 and dcen[i] + rbound[i] <= cutoff * (1 - 1e-9)]
+            # not "further than cutoff" under any reading: the whole bounding sphere is within the cutoff, or the point hit is
+            near = [i for i in range(ng) if inc[i] and ((rbound[i] > 0 and dcen[i] + rbound[i] <= cutoff * (1 - 1e-9)) or
+                                                       (allx[i] is not None and 0 <= allx[i] * vn <= cutoff * (1 - 1e-9)))]
             cand_near = [allx[i] for i in near if allx[i] is not None and allx[i] >= 0]
             xk, gk = float(dist2[k]), int(gid2[k])
             if xk == xe and gk == ge:
@@ -540,6 +553,10 @@ def worker(c):
                     lo, hi = interval(G[i], tuple(pnt.tolist()), tuple(v.tolist()))
                     if math.isfinite(hi) and (xk < 0 or xk > hi + TOL * (1 + hi * vn) / vn):
                         mech = diagnose_multiray_miss(m, d, i, pnt, v)
+                        if mech == "other-stage" and G[i][0] == R.PLANE and dcen[i] > cutoff:
+                            mech = "plane-culled-by-distance-to-its-frame-origin"
+                        elif mech == "other-stage" and dcen[i] + rbound[i] > cutoff:
+                            mech = "hit-point-within-cutoff-but-geom-culled"
                         ok, why = False, (mech if mech.startswith("body-bounding-sphere") else "geom-within-cutoff-ignored:" + mech)
             if ok:
                 P.count("multiray_cutoff_dropped_far_geom")
